@@ -373,6 +373,8 @@ def bounded(pr):
     import hashlib
     import re
     fd, alt_cfg = tempfile.mkstemp(suffix='.cfg')
+    import atexit
+    atexit.register(lambda p_=alt_cfg: os.path.exists(p_) and os.unlink(p_))     # also when a monitor step raises
     os.write(fd, re.sub(r'(?m)^desolv_cutoff\s+\S+', 'desolv_cutoff 16.0', re.sub(r'(?m)^coulomb_cutoff2\s+\S+', 'coulomb_cutoff2 8.0',
              open(os.path.join(native.REPO, 'propka', 'propka.cfg')).read())).encode())
     os.close(fd)
